@@ -271,7 +271,10 @@ func judge(ex *execution) Verdicts {
 		v.C02.Skip = e.Hazard
 	case e.Fatal != "":
 		v.C02.Skip = "not_clean"
-	case e.Dropped > 0:
+	case e.Dropped > 0 && e.Releases == 0:
+		// a dropped ignore-failure update means two plugins did set one item: C05 owns "without
+		// failing the request". Cases that also release another plugin's item stay in: the
+		// release must hold whatever happens to the ignored update in the same response.
 		v.C02.Skip = "ignored_conflict"
 	default:
 		sub := "a_disjoint"
@@ -368,6 +371,18 @@ func replacedUpdateValue(ex *execution, e *Expect) string {
 	return ""
 }
 
+func rulesEqual(a, b []*api.LinuxDeviceCgroup) bool {
+	if len(a) != len(b) {
+		return false
+	}
+	for i := range a {
+		if !proto.Equal(a[i], b[i]) {
+			return false
+		}
+	}
+	return true
+}
+
 func protoText(m proto.Message) string {
 	b, err := json.Marshal(m)
 	if err != nil {
@@ -420,6 +435,14 @@ func judgeC04(ex *execution, e *Expect, out *Verdict) {
 			if d := diffViews(got, want, nil); d != "" {
 				out.Fail = fmt.Sprintf("chain position %d (plugin %d) sees a container that is not the original with earlier adjustments applied: %s", pos, pi, d)
 				return
+			}
+			if !rulesEqual(ct.GetLinux().GetResources().GetDevices(), ex.sub.GetLinux().GetResources().GetDevices()) {
+				out.Fail = fmt.Sprintf("chain position %d (plugin %d): the device cgroup rules of the runtime's resources (no plugin can adjust them) are not what the runtime submitted: shown %v submitted %v",
+					pos, pi, ct.GetLinux().GetResources().GetDevices(), ex.sub.GetLinux().GetResources().GetDevices())
+				return
+			}
+			if len(ex.sub.GetLinux().GetResources().GetDevices()) > 0 {
+				out.Classes = append(out.Classes, "original_has_device_cgroup_rules")
 			}
 			if a, b := stripAdjustable(ct), stripAdjustable(ex.sub); !proto.Equal(a, b) {
 				out.Fail = fmt.Sprintf("chain position %d (plugin %d): fields no plugin can adjust differ from what the runtime submitted: shown %s submitted %s", pos, pi, protoText(a), protoText(b))
